@@ -85,6 +85,16 @@ def gen_cases(rng, tier):
                    "To: sip:bob@example.com\r\n"):
             for tag in ("ab%41c", "a.b-c_d~e", "1928301774", "-"):
                 cases.append(_case("to%d" % n, rel, [(700, 486, tag)], to)); n += 1
+    # the INVITE went out with a rewritten Via sent-by (TargetTransportInfo::via_host_port: a public address, a gateway name): the ACK's
+    # Via is the INVITE's, not one made afresh from the transport
+    for rel in (0, 1):
+        for vhp in ("203.0.113.7~40123", "gw.example.org~5080", "gw.example.org", "2001:db8::7~5062"):
+            for code in (404, 486):
+                c = _case("vhp%d" % n, rel, [(700, code, "a"), (900, code, "a")], ROUTES[n % len(ROUTES)]); n += 1
+                while len(c) < 12:
+                    c.append("")
+                c[11] = vhp
+                cases.append(c)
     # bursts: many answers are in before the caller looks again (forks of a 2xx answering together, a late caller finding the final and
     # its retransmissions waiting): every 2xx is handed over, every copy of the failure is ACKed - any number of them
     for rel in (0, 1):
